@@ -724,3 +724,71 @@ def check_whitespace_siblings(ctx, rep):
             else:
                 rep.bad("T-SPELL", "T-SPELL:whitespace:%s:%s" % (b.short.split("::")[-1], nm), b.where(bi), "%s skips %s but the filter lexer's white-space class is %s: a line break in that position is not accepted although it is elsewhere" % (nm, scanai.mask_str(classes[nm]), scanai.mask_str(want)))
     return n
+
+
+def check_path_resolution(ctx, rep):
+    """Dict::resolve_for walks the segments and may stop early only when the value so far is Null ('yields Null when a
+    segment is absent'): every exit of the segment loop other than 'no more segments' is taken under is_null() == true"""
+    prog = ctx.prog
+    b = body_of(prog, "<haystack::val::dict::Dict as haystack::filter::resolver::PathResolver>::resolve_for")
+    if b is None:
+        rep.gap("Dict::resolve_for", "-", "not found")
+        return 0
+    loop = None
+    nb = None
+    for scc in b.sccs():
+        for x in scc:
+            t = b.term(x)
+            if t["k"] == "call" and strip_generics(mir.callee_name(t) or "").endswith("Iterator>::next"):
+                loop, nb = scc, x
+    if loop is None:
+        rep.gap("Dict::resolve_for:loop", b.where(), "segment loop not found")
+        return 0
+    n = 0
+    bad = []
+    for x in sorted(loop):
+        for s in b.succ(x):
+            if s in loop:
+                continue
+            n += 1
+            t = b.term(x)
+            conds = []
+            if t["k"] == "switch":
+                conds = G.switch_conditions(b, x).get(s, [])
+            conds = conds + G.guards_at(b, x)
+            none_edge = any(c.a is not None and c.a.kind == "discr" and c.a.args and c.a.args[0].kind == "call" and c.a.args[0].v.endswith("::next") and ((c.op == "Eq" and c.b.v == 0) or (c.op == "Ne" and c.b.v == 1)) for c in conds)
+            null_edge = any(c.op == "True" and c.a is not None and c.a.kind == "call" and c.a.v.endswith("Value::is_null") for c in conds)
+            if not (none_edge or null_edge):
+                bad.append((x, s))
+    if bad:
+        rep.bad("T-RESOLVE", "T-RESOLVE:resolve_for:early-exit-only-on-null", b.where(bad[0][0]), "the segment loop can be left early (bb%d -> bb%d) while the value so far is not Null: a path through a present non-dict value resolves to that value instead of to nothing" % bad[0])
+    else:
+        rep.ok("T-RESOLVE", "resolve_for:early-exit-only-on-null", b.where(nb), "the %d exits of the segment loop are 'no more segments' or 'value so far is Null'" % n)
+    # the non-dict arm yields Null: the match on cur_val assigns Null in its default arm
+    sws = K.value_switches(b, "haystack::val::value::Value")
+    names = enum_names(prog, "haystack::val::value::Value")
+    ok = False
+    for sb, t, _ in sws:
+        if sb in loop:
+            only = [names.get(int(v)) for v, _tb in t["targets"]]
+            eff = None
+            # default arm: first assignment of a Value aggregate
+            seen = {t["otherwise"]}
+            st = [t["otherwise"]]
+            while st and eff is None:
+                y = st.pop(0)
+                for s2 in b.blocks[y]["stmts"]:
+                    if s2["k"] == "assign" and s2["rv"]["k"] == "agg" and s2["rv"].get("adt") == "haystack::val::value::Value":
+                        eff = s2["rv"]["variant"]
+                        break
+                for z in b.succ(y):
+                    if z not in seen and z in loop and len(b.pred(z)) <= 1:
+                        seen.add(z)
+                        st.append(z)
+            if only == ["Dict"] and eff == "Null":
+                ok = True
+    if ok:
+        rep.ok("T-RESOLVE", "resolve_for:non-dict-yields-null", b.where(), "only a Dict is traversed; any other intermediate value yields Null")
+    else:
+        rep.bad("T-RESOLVE", "T-RESOLVE:resolve_for:non-dict-yields-null", b.where(), "the non-dict arm of the traversal does not yield Null")
+    return n + 1
